@@ -23,6 +23,10 @@ chk("C04",
     "Bounded-exhaustive model checking of ExprLexer/ExprParser: every token sequence of length <=5 (thorough 6) over a 22-token alphabet with all whitespace interleavings for short sequences, every character string of length <=5 (thorough 6) over the 26 lexically relevant characters, and a numeric sub-enumeration up to the 32/64-bit boundaries, each compared with a reference tokeniser and grammar written from the documented language (accept/reject, normalised tree = precedence, literal values, lower-casing, end offset, single error with offset inside the text); short sequences also through Linter.Lint in run: and bare if: positions.",
     "Sentences longer than the bounds are not explored (the 'randomly beyond the bound' part of the quantifier is not claimed); token classes are represented by one spelling each in the token enumeration; appendix-A don't-care classes are not compared." + OVERLAY_NOTE,
     "exhaustive enumeration of all token sequences / character strings up to a length bound vs reference grammar")
+chk("C10",
+    "Stateless model checking of the real Linter.LintFiles under a controlled scheduler: 6 scenarios (shared local action, caller+callee reusable workflow with AST- vs file-derived interface, sibling and nested repositories with different configurations, messages built from shared slices, broken shared callees, -format) x every subset and argument order of the files x semaphore size {1,2} x all interleavings up to 2 preemptions (thorough 3); oracle: per-file diagnostics equal LintFile alone on a fresh Linter, defects of a shared callee exactly once per run, deep fingerprint of all package-level tables and every Config unchanged (AllWebhookTypes at every scheduling point), no deadlock.",
+    "Data races proper are outside a cooperative scheduler's reach: the 'no data races' clause is only supported by the modification monitor plus a separate free-running -race pass, not decided. GOMAXPROCS is subsumed by interleavings under data-race freedom. Scenarios are a fixed catalogue of 6 drivers." + OVERLAY_NOTE,
+    "controlled-scheduler stateless DFS with preemption bounding + happens-before state caching, differential oracle")
 chk("C17",
     "Bounded-exhaustive model checking of ValidateRefGlob/ValidatePathGlob: every string of length <=5 (thorough 6) over an 18-symbol alphabet covering all special characters and one representative per character class, each compared with a reference validator written from the documented syntax (accept/reject), the ref=>path implication and the column/named-character oracle; every string <=3 also through Linter.Lint.",
     "Characters outside the alphabet are represented by class representatives; strings longer than the bound are not explored; appendix-B don't-care classes are not compared." + OVERLAY_NOTE,
